@@ -3,6 +3,7 @@ package rules
 import (
 	"fmt"
 	"go/token"
+	"go/types"
 	"sort"
 	"strings"
 
@@ -275,6 +276,14 @@ func (l *layoutCtx) decoder(pkg, name string, variants []Variant,
 				problems = append(problems, "panics on a conformant input: "+r.Path.Panics+pathSuffix(r))
 				continue
 			}
+			// results handed back in a struct (basicHeader{format, cid}) count as the results they group, in order
+			ei := ei
+			if flat, grouped := flattenResults(r.Path, fn, r.Ret); grouped {
+				r.Ret = flat
+				if n := fn.Signature.Results().Len(); n > 0 && core.IsErrorType(fn.Signature.Results().At(n-1).Type()) {
+					ei = len(flat) - 1
+				}
+			}
 			if ei >= 0 && ei < len(r.Ret) {
 				if _, isNil := r.Ret[ei].(*abs.NilV); !isNil {
 					problems = append(problems, "a conformant input is rejected: "+abs.Describe(r.Path, r.Ret[ei])+pathSuffix(r))
@@ -489,4 +498,29 @@ func checkFreshResult(c *Ctx, rule, pkg, name string, resultIdx int) {
 	R.Check(bad == "", rule, pkg+"|"+name+"|result-is-freshly-allocated", P.Pos(fn.Pos()),
 		"the bytes returned are allocated by the call itself",
 		"the bytes returned are a view of "+bad+": the next call overwrites the body the previous caller still holds, so bodies encoded in a batch decode to the last frame", nil)
+}
+
+// flattenResults expands struct-valued results of a module type into their fields.
+func flattenResults(p *abs.Path, fn *ssa.Function, rets []abs.Value) ([]abs.Value, bool) {
+	var out []abs.Value
+	grouped := false
+	res := fn.Signature.Results()
+	for i, v := range rets {
+		if i < res.Len() {
+			if st, ok := res.At(i).Type().Underlying().(*types.Struct); ok {
+				if nt, isNamed := res.At(i).Type().(*types.Named); isNamed && nt.Obj().Pkg() != nil && strings.HasPrefix(nt.Obj().Pkg().Path(), core.ModulePath) {
+					if ag, isAgg := v.(*abs.Agg); isAgg {
+						for k := 0; k < st.NumFields(); k++ {
+							fv, _ := abs.FieldByName(p, ag.Obj, core.FieldVarName(st.Field(k)))
+							out = append(out, fv)
+						}
+						grouped = true
+						continue
+					}
+				}
+			}
+		}
+		out = append(out, v)
+	}
+	return out, grouped
 }
